@@ -1070,6 +1070,11 @@ package plenccodec
 //@   # every field recorded so far has an index between 0 and the maximum seen: the index table built below covers it
 //@   loop 1 invariant[C08] forall k int :: 0 <= k && k < count ==> 0 <= c.fields[k].index && c.fields[k].index <= maxIndex
 //@   loop 1 decreases rangelen - rangeindex
+//@   # a field whose name starts with a lower-case letter is not recorded, so it is in neither the field list nor the index table
+//@   loop 1 step[C08] called_IsLower && call_IsLower_r0 ==> count == head_count
+//@   loop 1 step[C08] count == head_count || count == head_count + 1
+//@   # a recorded field was given a codec by the builder and a tag made of that codec's wire type and the field's index
+//@   loop 1 step[C08,C02] count == head_count + 1 ==> called_CodecBuilder_CodecForTypeRegistry && call_CodecBuilder_CodecForTypeRegistry_r1 == nil && called_AppendTag && call_AppendTag_arg2 == c.fields[head_count].index
 //@   loop 2 invariant[C08] len(c.fieldsByIndex) == maxIndex + 1 && rangelen == len(c.fields)
 //@   loop 2 invariant[C08] forall k int :: 0 <= k && k < len(c.fields) ==> 0 <= c.fields[k].index && c.fields[k].index <= maxIndex
 //@   loop 2 decreases rangelen - rangeindex
